@@ -12,17 +12,17 @@ CHECKS = {
  "C01": ("property-based differential testing (rapid) + bounded-exhaustive axis-tuple enumeration against a reference XPath 1.0 evaluator",
          "Random documents x context nodes x predicate-free paths (reference-guided so most results are non-empty) plus a complete enumeration of all axis pairs (quick) / triples (thorough) over fixed rich documents; set(Select) and set(Evaluate) must equal the reference denotation in both directions." + EXPL, REF, "DESIGN.md section 4 C01"),
  "C02": ("property-based differential testing (rapid) against a reference evaluator + engine-only per-candidate oracle",
-         "Paths whose steps carry nested boolean predicates over documents with many candidates sharing ancestors/siblings; the selected set must equal the reference denotation and, independently of the reference, the candidates that a freshly compiled boolean(P) accepts one by one." + EXPL, REF + " Converted/counted node-sets are flat while KF-A/KF-B are confirmed.", "DESIGN.md section 4 C02"),
+         "Paths whose steps carry nested boolean predicates (verdict-guided so that mixed verdicts are common) over documents with many candidates sharing ancestors/siblings; the selected set must equal the reference denotation and, independently of the reference, (a) the candidates that a freshly compiled boolean(P) accepts one by one and (b) on small documents the step-by-step evaluation with engine primitives only." + EXPL, REF + " Converted/counted node-sets are flat while KF-A/KF-B are confirmed.", "DESIGN.md section 4 C02"),
  "C03": ("property-based differential testing (rapid) against a reference evaluator",
-         "Positional predicates on child steps (incl. after '//', followed by boolean predicates) and (flat)[n] at top level, as path start and inside predicates, over documents whose parents have different fan-out; set(Select) = reference, (flat)[n] = n-th node in document order." + EXPL, REF, "DESIGN.md section 4 C03"),
+         "Positional predicates on child steps (incl. after '//', followed by boolean predicates) and (flat)[n] at top level, as path start and inside predicates, over documents whose parents have different fan-out (incl. two-digit positions), plus an exhaustive enumeration of every positional form x n in 1..6 x path shapes on rich documents; set(Select) = reference, (flat)[n] = n-th node in document order." + EXPL, REF, "DESIGN.md section 4 C03"),
  "C04": ("stateful property-based testing (rapid, generated call histories) with a fresh-compile differential oracle",
-         "Histories of Select/Evaluate calls (full, abandoned half-way, other contexts, other document, unrelated recompile in between) on ONE compiled expression; after every action the observation must equal that of a freshly compiled expression." + EXPL, "Self-differential: trusts the engine on a fresh compile (its values are decided by C01-C03/C07-C09).", "DESIGN.md section 4 C04"),
+         "Histories of Select/Evaluate calls (full, abandoned half-way, other contexts, a related or unrelated second document, unrelated recompile in between, evaluations that abort) on ONE compiled expression; after every action the observation must equal that of a freshly compiled expression. A second unit advances two live iterators of one compiled expression in a drawn interleaving (harness-owned schedule)." + EXPL, "Self-differential: trusts the engine on a fresh compile (its values are decided by C01-C03/C07-C09).", "DESIGN.md section 4 C04"),
  "C05": ("property-based stress under the Go race detector (rapid-generated goroutine plans, start barrier) with a sequential differential oracle",
          "2-8 goroutines share one *Expr (Select / Evaluate / Compile of the same text / regex functions / two interleaved iterators); the race detector's log must not grow, the process must survive (crash journal) and every result must equal the sequential one. Exploration with sampled schedules is what this technique can give; interleavings are not enumerated.", "Schedules are sampled; a race needing a rare window can be missed. Trusts the Go race detector.", "DESIGN.md section 4 C05"),
  "C06": ("property-based testing with byte-level mutation (rapid) + bounded-exhaustive deep-nesting cases run with a crash journal + native coverage-guided fuzzing (thorough)",
-         "Valid/unconstrained/soup expressions with 0-3 byte mutations under every namespace configuration, every recursive grammar construct nested to 10^5 (8 MB stack) / 3*10^6 (default stack), and go-fuzz in the thorough tier; Compile returns exactly one of (expr, err), nothing panics, the process survives, MustCompile is usable." + EXPL, "Termination is decided within an explicit wall-clock margin with an isolated retry.", "DESIGN.md section 4 C06"),
+         "Valid/unconstrained/soup expressions with 0-3 byte- or token-level mutations under every namespace configuration; every recursive grammar construct nested to 10^5 (8 MB stack) / 3*10^6 (default stack); alternations of two constructs at depths 2..198 (compile cost must stay polynomial, watchdog); N completed constructs followed by N+250 levels of nesting (depth accounting); go-fuzz in the thorough tier; Compile returns exactly one of (expr, err), nothing panics, the process survives, MustCompile is usable." + EXPL, "Termination is decided within an explicit wall-clock margin with an isolated retry.", "DESIGN.md section 4 C06"),
  "C07": ("property-based differential testing (rapid) against a reference evaluator",
-         "Exactly the operand-type matrix of the statement over documents with numeric, non-numeric, empty and mixed values (incl. NaN/Infinity operands and observable short-circuit); Evaluate and the predicate form must equal the reference; no panic." + EXPL, REF, "DESIGN.md section 4 C07"),
+         "Exactly the operand-type matrix of the statement over documents with numeric, non-numeric, empty and mixed values (incl. NaN/Infinity operands, large node-sets and observable short-circuit), plus the complete enumeration of the matrix over fixed operand lists; Evaluate and the predicate form must equal the reference; no panic." + EXPL, REF, "DESIGN.md section 4 C07"),
  "C08": ("property-based differential testing (rapid) against a reference evaluator with exact float comparison",
          "Arithmetic trees of depth <= 4 over literals, document-derived numbers, NaN/Infinity, mod/floor/ceiling/number/count/sum/string-length and string() of finite small values; bit-exact agreement with the reference." + EXPL, REF + " Same IEEE operations in the same order on both sides.", "DESIGN.md section 4 C08"),
  "C09": ("property-based differential testing (rapid) + exhaustive substring sweep against a reference evaluator",
@@ -40,7 +40,7 @@ CHECKS = {
  "C15": ("property-based testing with an unconstrained expression grammar and token soup (rapid) + exhaustive ill-typed call/operator enumeration + native fuzzing (thorough), validity-predicate oracle with an operation budget",
          "Whatever Compile accepts is evaluated (Select and Evaluate, drained) on small documents: it must complete or panic with a non-runtime error value, return a documented type, and terminate within a navigator-operation budget." + EXPL, "A panic whose value is an error but not a runtime.Error counts as deliberate. KF-round (round() returns int) is a recorded known finding.", "DESIGN.md section 4 C15"),
  "C16": ("property-based differential testing against Go's regexp (rapid) + stateful cache histories with invariants + goroutine block under the race detector",
-         "matches()/replace() over a regex grammar with up to 12 groups vs. regexp and a manual expansion; cache histories over capacities 0..5 with failing loads and a swapped-in RegexpCache, checked after every step (exact value, bounded size, no load for cached keys, failed loads not remembered); concurrent gets under -race." + EXPL, "Trusts Go's regexp and the verif-tagged cache accessors; schedules are sampled.", "DESIGN.md section 4 C16"),
+         "matches()/replace() over a regex grammar with up to 12 groups vs. regexp and a manual expansion; cache histories over capacities 0..5 with failing loads and a swapped-in RegexpCache, checked after every step (exact value, bounded size, no load for cached keys, failed loads not remembered); a harness-owned schedule in which all loads are held in their miss window and released in a drawn order; concurrent gets under -race." + EXPL, "Trusts Go's regexp and the verif-tagged cache accessors; schedules are sampled.", "DESIGN.md section 4 C16"),
  "C17": ("property-based testing with exhaustive damage positions (rapid-generated valid expressions, every position of every damage operator)",
          "Every applicable position of every damage class of the statement is applied to generated valid expressions; Compile must return an error. Only damages that are invalid by construction are generated." + EXPL, "Assumes the damage operators are invalid by construction as argued in DESIGN.md.", "DESIGN.md section 4 C17"),
 }
